@@ -93,7 +93,7 @@ Match(e, m, wild, b) ==
    IF b = Fail THEN Fail
    ELSE IF IsWild(m, wild) THEN
         (IF m.n \in DOMAIN b THEN (IF b[m.n] = e THEN b ELSE Fail)
-         ELSE IF m.w = e.w THEN [x \in DOMAIN b \cup {m.n} |-> IF x = m.n THEN e ELSE b[x]] ELSE Fail)
+         ELSE [x \in DOMAIN b \cup {m.n} |-> IF x = m.n THEN e ELSE b[x]])
    ELSE IF m.k # e.k THEN Fail
    ELSE IF e.k \in {"int", "id"} THEN (IF e = m THEN b ELSE Fail)
    ELSE IF Len(e.a) # Len(m.a) \/ [e EXCEPT !.a = <<>>] # [m EXCEPT !.a = <<>>] THEN Fail
